@@ -310,6 +310,26 @@ theorem stream_of_none {k : Nat} (h : s.store.get? k = none) : s.stream k = { ke
 
 end prim
 
+
+-- ===================================================================== `stream k` seen from the store
+
+/-- `Streams.stream` seen from the store -/
+def Store.getD' (S : Store) (k : Nat) : Stream := (S.get? k).getD { key := k, id := 0 }
+
+theorem stream_eq (s : Streams) (k : Nat) : s.stream k = Store.getD' s.store k := rfl
+
+theorem Store.getD'_of_get? {S : Store} {k : Nat} {st : Stream} (h : S.get? k = some st) : Store.getD' S k = st := by
+  unfold Store.getD'; rw [h]; rfl
+
+@[simp, crp_store] theorem ite_panic_store (c : Prop) [Decidable c] (s : Streams) (m : String) :
+    (if c then s else s.panic m).store = s.store := by split <;> simp
+@[simp, crp_store] theorem ite_panic_store' (c : Prop) [Decidable c] (s : Streams) (m : String) :
+    (if c then s.panic m else s).store = s.store := by split <;> simp
+
+@[simp, crp_store] theorem decNumStreams_store (s : Streams) (id : Nat) :
+    (s.decNumStreams id).store = Store.mod s.store id (fun st => { st with isCounted := false }) := by
+  unfold Streams.decNumStreams; dsimp only; split <;> split <;> simp
+
 -- ===================================================================== stream-level notifications keep everything but tasks
 
 section notify
